@@ -7,7 +7,12 @@ CONSTANTS MaxInner, MaxSteps, MaxPerSrc, Cuts, InstSetName, TailSetName, SyncSet
 I(op, g) == [op |-> op, g |-> g]
 Flat == {I("MergeAll", "MergeAll"), I("MergeAll", "MergeMap"), I("ConcatAll", "ConcatAll"), I("ConcatAll", "FlatMap")}
 Coll == {I("CombineLatestAll", "CombineLatestAll"), I("ZipAll", "ZipAll")}
-InstSet == CASE InstSetName = "flat" -> Flat [] InstSetName = "collecting" -> Coll [] OTHER -> Flat \cup Coll
+\* the remaining flavours of the projecting operators (index and / or context handed to the projection) and the []any alias of CombineLatestAll:
+\* same definitions, each flavour its own entry point
+Flavours == {I("MergeAll", "MergeMapI"), I("MergeAll", "MergeMapWithContext"), I("MergeAll", "MergeMapIWithContext"),
+             I("ConcatAll", "FlatMapI"), I("ConcatAll", "FlatMapWithContext"), I("ConcatAll", "FlatMapIWithContext"),
+             I("CombineLatestAll", "CombineLatestAllAny")}
+InstSet == CASE InstSetName = "flat" -> Flat [] InstSetName = "collecting" -> Coll [] InstSetName = "flavours" -> Flavours [] OTHER -> Flat \cup Coll
 
 TailSet == IF TailSetName = "cuts" THEN {"Take1", "Throw1"} ELSE {"none"}
 
